@@ -46,7 +46,7 @@ def mandatory_bins(tier):
     b = ["len_mod16_%d" % i for i in range(16)] + ["trailing_zeros_%d" % z for z in range(18)]
     b += ["all_zero_content", "via_set_config", "via_direct_construction", "framing_bf3", "framing_bec2", "needle_scan", "needle_session_key", "needle_security_code",
           "needle_customer_key", "needle_plaintext_block", "key_ends_00", "default_key", "cipher_unregistered", "cipher_fails_at_call", "cipher_fails_at_first_call",
-          "cipher_fails_at_last_call", "fault_stream", "fault_path", "read_back_with_key", "long_content", "content_longer_than_1024", "rewrite_after_content_change", "rewrite_after_in_place_content_change", "set_config_over_preexisting_plain_configuration"]
+          "cipher_fails_at_last_call", "fault_stream", "fault_path", "read_back_with_key", "long_content", "content_longer_than_1024", "rewrite_after_content_change", "rewrite_after_in_place_content_change", "set_config_over_preexisting_plain_configuration", "target_is_a_file_name", "read_back_without_mac_check", "rewrite_of_a_read_back_object"]
     return b
 
 
@@ -130,13 +130,19 @@ def check_case(ns, ctx, content, declared, key, framing, via, specs, conf, rp):
     mcase = G.Case([("FirmwareId", "1100")], [plain_other, MComp(desc, content, declared, True)])
     buf = io.StringIO()
     code = ck = None
+    path = None
+    if (len(content) + key[0]) % 4 == 1:
+        # target given as a file NAME instead of an open stream
+        fd, path = tempfile.mkstemp(prefix="c06-", suffix=".bf3", dir=os.environ.get("VERIF_SCRATCH"))
+        os.close(fd)
+        ctx.bin("target_is_a_file_name")
     try:
         if framing == "bf3":
-            f.write_file(buf, key)
+            f.write_file(path if path else buf, key)
             ctx.bin("framing_bf3")
         else:
             bf = B.Bec2File(f, GB.real_auth_blocks(ns, specs), key)
-            bf.write_file(buf, GB.write_encryptors(ns, specs))
+            bf.write_file(path if path else buf, GB.write_encryptors(ns, specs))
             ctx.bin("framing_bec2")
             for s in specs:
                 if s["kind"] == "update":
@@ -147,6 +153,11 @@ def check_case(ns, ctx, content, declared, key, framing, via, specs, conf, rp):
     except Exception as e:
         ctx.violation("writer_raises_on_object_in_domain", {"exc": fmt_exc(e)}, rp)
         return
+    finally:
+        if path:
+            with open(path) as fh:
+                buf = io.StringIO(fh.read())
+            os.unlink(path)
     text = buf.getvalue()
     # (a) stored payload = OpenSSL CBC(content | zero pad)
     try:
@@ -191,6 +202,32 @@ def check_case(ns, ctx, content, declared, key, framing, via, specs, conf, rp):
     d = G.diff_file(back, mcase)
     if d:
         ctx.violation("read_back_differs:" + d[0].split("[")[0], {"diff": d, "got_blob": bytes(back.components[-1].blob)[:48] if back.components else None}, rp)
+        return
+    # (b') the same file read with the MAC check switched off (correct key), and that object written again
+    try:
+        if framing == "bf3":
+            back2 = BF.Bf3File.read_file(io.StringIO(text), False, key)
+        else:
+            back2 = B.Bec2File.read_file(io.StringIO(text), GB.read_encryptors(ns, specs), False)
+        ctx.bin("read_back_without_mac_check")
+        d = G.diff_file(back2 if framing == "bf3" else back2.bf3file, mcase)
+        if d:
+            ctx.violation("read_back_without_mac_check_differs:" + d[0].split("[")[0], {"diff": d}, rp)
+            return
+        buf3 = io.StringIO()
+        if framing == "bf3":
+            back2.write_file(buf3, key)
+            back3 = BF.Bf3File.read_file(io.StringIO(buf3.getvalue()), True, key)
+        else:
+            back2.write_file(buf3, GB.write_encryptors(ns, specs))
+            back3 = B.Bec2File.read_file(io.StringIO(buf3.getvalue()), GB.read_encryptors(ns, specs), True).bf3file
+        ctx.bin("rewrite_of_a_read_back_object")
+        d = G.diff_file(back3, mcase)
+        if d:
+            ctx.violation("rewrite_of_read_back_object_differs:" + d[0].split("[")[0], {"diff": d}, rp)
+            return
+    except Exception as e:
+        ctx.violation("read_or_rewrite_of_written_file_raises", {"exc": fmt_exc(e)}, rp)
         return
     # ---- history: the SAME object is changed and written again under the same key ---------------------
     if len(content) <= 200:
